@@ -351,6 +351,6 @@ def run(ctx: Ctx):
         ctx.run_given("optimiser", opt_cases(algo, kind), oracle_optimiser, ctx.n(16, 300), shrink=False)
     from checks.c04_onpolicy_rollout import rollout_cases
 
-    for config in ("box-scalar", "disc-onehot") if ctx.quick else ("box-scalar", "box-vec2", "disc-onehot", "disc-masked"):
+    for config in ("box-scalar", "disc-masked") if ctx.quick else ("box-scalar", "box-vec2", "disc-onehot", "disc-masked"):
         ctx.run_given("fresh_data", rollout_cases(config, 16, "some", algos=("PPO",), policy_kind="mlp"), oracle_fresh_data, ctx.n(30, 500), shrink=False)
     ctx.require_fraction("losses", "nontrivial", 0.2)
